@@ -106,3 +106,20 @@ Theorem src_build_method L m :
   run_tab L (cm_specs m) gen_tab_body (rev groups) (N.ones (N.of_nat (length (cm_specs m)))) true (mk_to [] tc0)
   = Some (mk_to (t_cells (build_method L m)) (mk_tc (rp_amb rep) (rp_camb rep) (rp_ni rep) (rp_cni rep))).
 Proof. cbv zeta. rewrite src_build_method_cells. reflexivity. Qed.
+
+(* ------------------------------------------------------------------ "assigning next" *)
+(* what the translated loop body stores through a definition's next pointer is the model's t_nexts entry *)
+Theorem src_next L specs sp :
+  run_next L specs sp gen_next_body
+  = Some (cell_of (best L specs (filter (fun o => is_base L (nth o specs []) sp false) (seq 0 (length specs))))).
+Proof.
+  unfold run_next, gen_next_body. cbn [nexec nceval n_cands n_nexts n_next n_stored].
+  set (b := best L specs _).
+  destruct b as [|s [|s2 r]]; cbn; reflexivity.
+Qed.
+
+Theorem src_nexts L m :
+  map (fun sp => run_next L (cm_specs m) sp gen_next_body) (cm_specs m) = map Some (t_nexts (build_method L m)).
+Proof.
+  unfold build_method. cbn [t_nexts]. rewrite map_map. apply map_ext. intros sp. apply src_next.
+Qed.
